@@ -100,6 +100,7 @@ pub enum RegexNode {
     Cat(Vec<RegexNodeId>),
     Or(Vec<RegexNodeId>),
     Star(RegexNodeId),
+    Plus(RegexNodeId),
 }
 
 impl std::fmt::Debug for RegexNode {
@@ -112,6 +113,7 @@ impl std::fmt::Debug for RegexNode {
             Self::Cat(children) => f.write_fmt(format_args!(r#"Cat({children:?})"#)),
             Self::Or(children) => f.write_fmt(format_args!(r#"Or(vec!{children:?})"#)),
             Self::Star(child) => f.write_fmt(format_args!(r#"Star({child:?})"#)),
+            Self::Plus(child) => f.write_fmt(format_args!(r#"Plus({child:?})"#)),
             Self::EndMarker(position) => f.write_fmt(format_args!(r#"EndMarker({position})"#)),
             Self::Epsilon => f.write_fmt(format_args!(r#"Epsilon"#)),
         }
@@ -148,7 +150,7 @@ fn do_firstpos(re: &RegexNode, arena: &[RegexNode], result: &mut RoaringBitmap) 
                 }
             }
         }
-        RegexNode::Star(child_id) => {
+        RegexNode::Star(child_id) | RegexNode::Plus(child_id) => {
             let child = &arena[*child_id];
             do_firstpos(child, arena, result);
         }
@@ -188,7 +190,7 @@ fn do_lastpos(re: &RegexNode, arena: &[RegexNode], result: &mut RoaringBitmap) {
                 }
             }
         }
-        RegexNode::Star(child_id) => {
+        RegexNode::Star(child_id) | RegexNode::Plus(child_id) => {
             let child = &arena[*child_id];
             do_lastpos(child, arena, result);
         }
@@ -240,8 +242,11 @@ fn do_followpos(
                 }
             }
         }
-        RegexNode::Star(subregexid) => {
+        RegexNode::Star(subregexid) | RegexNode::Plus(subregexid) => {
             let subregex = &arena[*subregexid];
+            if matches!(re, RegexNode::Plus(_)) {
+                do_followpos(subregex, arena, result);
+            }
             let first = subregex.firstpos(arena);
             let last = subregex.lastpos(arena);
             for i in last {
@@ -269,6 +274,7 @@ impl RegexNode {
                 .iter()
                 .all(|child_id| arena[*child_id].nullable(arena)),
             RegexNode::Star(_) => true,
+            RegexNode::Plus(child_id) => arena[*child_id].nullable(arena),
             RegexNode::EndMarker(_) => true,
         }
     }
@@ -421,10 +427,9 @@ fn do_from_expr(
                 input_from_position,
                 subwords,
             )?;
-            let star = RegexNode::Star(subregex_id);
-            let starid = alloc(node_arena, star);
-            let result = RegexNode::Cat(vec![subregex_id, starid]);
-            Ok(alloc(node_arena, result))
+            // One node for `x...`: `Cat(x, Star(x))` shares `x` between two parents and makes every
+            // traversal of nested repetitions take time exponential in the nesting depth.
+            Ok(alloc(node_arena, RegexNode::Plus(subregex_id)))
         }
         Expr::DistributiveDescription { .. } => unreachable!(),
         Expr::Fallback {
@@ -612,6 +617,23 @@ fn do_to_dot<W: Write>(
         }
         RegexNode::Star(..) => {
             writeln!(output, r#"{indentation}{node_dot_id}[label="Star"];"#)?;
+            if let Some(parent_dot_id) = parent_dot_id {
+                writeln!(output, r#"{indentation}{parent_dot_id} -> {node_dot_id};"#,)?;
+            }
+        }
+        RegexNode::Plus(child) => {
+            writeln!(output, r#"{indentation}{node_dot_id}[label="Plus"];"#)?;
+            do_to_dot(
+                output,
+                child,
+                Some(&node_dot_id),
+                arena,
+                input_from_position,
+                subword_regexes,
+                identifiers_prefix,
+                recursion_level,
+                visited_subwords,
+            )?;
             if let Some(parent_dot_id) = parent_dot_id {
                 writeln!(output, r#"{indentation}{parent_dot_id} -> {node_dot_id};"#,)?;
             }
